@@ -1,4 +1,5 @@
 import SieveModel.Model.Machine
+import SieveModel.Model.Safety
 /-! The argument interpreter never raises an *unexpected* exception on the calls the parser makes,
     for tables satisfying `SlotsSafe` (a decidable condition checked on the live table). -/
 namespace ArgsSafe
@@ -12,20 +13,6 @@ def Consistent : ArgType → AVal → Prop
   | .stringlist, .strs _ => True
   | .test, .test _ => True
   | _, _ => False
-
-/-- per-slot conditions: value sets and `valid_for` only on scalar-typed slots; a `testlist` slot is
-    required and alone in its definition -/
-def slotSafe (a : ArgDef) : Bool :=
-  ((a.values.isNone && a.extValues.isEmpty) ||
-      (!decide (ArgType.stringlist ∈ a.types) && !decide (ArgType.test ∈ a.types) && !decide (ArgType.testlist ∈ a.types))) &&
-  (match a.extra with
-   | some e => e.validFor.isNone || a.required ||
-       (!decide (ArgType.stringlist ∈ a.types) && !decide (ArgType.test ∈ a.types) && !decide (ArgType.testlist ∈ a.types))
-   | none => true)
-
-def defSafe (d : CmdDef) : Bool :=
-  d.args.all slotSafe &&
-  (d.args.all (fun a => a.types != [.testlist]) || (d.args.length == 1 && d.args.all (fun a => a.required)))
 
 def SlotsSafe (T : Table) : Prop := ∀ d ∈ T, defSafe d = true
 
